@@ -163,7 +163,10 @@ def gen_cases(tier):
         for n in ns:
             for f in T.iter_forests(n):
                 base = spec_from_forest(f, pal, 1, 0.37)
-                opts = [pc_options(c, phases, full) for c in base["comps"]]
+                # the two special configurations (explicit 0 entry, only-undefined phase) for every component of 1-node trees and for the last component otherwise
+                opts = [pc_options(c, phases, full, extras=(n == 1 or c is base["comps"][-1])) for c in base["comps"]]
+                if not full and tier == "quick":
+                    opts[0] = [None, [list(phases)[0]]]  # larger trees: the source is either unconfigured or on in the first phase only
                 for assign in itertools.product(*opts):
                     yield dict(f=f, pal=pal, srs=0.37, assign=list(assign), ph3=ph3)
                     if any(a is not None and "zz" in a for a in assign):  # configured BEFORE the system phases exist
